@@ -290,14 +290,16 @@ impl fmt::Display for Formatter {
                         write_sep(f, i, &self.format)?;
                         write!(f, "{}", self.epoch.weekday().to_c89_weekday())?
                     }
+                    Token::Weekday => {
+                        write_sep(f, i, &self.format)?;
+                        write!(f, "{}", self.epoch.weekday())?
+                    }
+                    Token::WeekdayShort => {
+                        write_sep(f, i, &self.format)?;
+                        write!(f, "{:x}", self.epoch.weekday())?
+                    }
                     _ => unreachable!(),
                 };
-
-                if let Some(sep) = item.sep_char {
-                    write!(f, "{sep}")?;
-                } else if let Some(sep) = item.second_sep_char {
-                    write!(f, "{sep}")?;
-                }
             }
         }
         Ok(())
